@@ -118,6 +118,10 @@ public:
 	bool flush();
 
 private:
+	// Check that at least len more bytes can be read from the file; a length
+	// field that claims more is corrupt and must not be used to size a buffer
+	bool canRead(unsigned long len);
+
 	// The file path
 	std::string path;
 
